@@ -12,7 +12,7 @@
    are atomic-section abstractions whose classification (mutating / reading / stateless) is validated
    dynamically, and memoising reads inside read sections (RoleManager._get_role entries, DomainManager.rm_map,
    the `g` closures stored by enforce) are ASSUMED to commute. *)
-From Coq Require Import List String Bool NArith.
+From Coq Require Import List Bool NArith.
 From PyCasbin Require Import Base SyncedBase Synced SyncedProofs SyncedTie.
 From PyCasbinGen Require Import SyncedGen.
 Import ListNotations.
@@ -39,7 +39,7 @@ Theorem C17_no_dirty_read :
   forall (state call local ret : Type) (mode : call -> lockmode) (start : call -> local)
          (mstep : call -> local -> state -> local * state) (len : call -> nat) (result : call -> local -> ret)
          (s0 : state) (progs : list (list call)),
-    (forall c, In c (List.concat progs) -> disciplined mode mstep c) ->
+    (forall c, In c (concat progs) -> disciplined mode mstep c) ->
     forall tr C, exec mode start mstep len result (init s0 progs) tr = Some C ->
     forall t th c l r, nth_error (ths C) t = Some th -> ph th = Run c l r -> mode c = LR ->
       writer_inside mode (ths C) = false
@@ -58,7 +58,7 @@ Theorem C17_linearizable :
   forall (state call local ret : Type) (mode : call -> lockmode) (start : call -> local)
          (mstep : call -> local -> state -> local * state) (len : call -> nat) (result : call -> local -> ret)
          (s0 : state) (progs : list (list call)),
-    (forall c, In c (List.concat progs) -> disciplined mode mstep c) ->
+    (forall c, In c (concat progs) -> disciplined mode mstep c) ->
     forall tr C, exec mode start mstep len result (init s0 progs) tr = Some C ->
     exists ord : list (callid * call),
       NoDup (map fst ord)
@@ -113,11 +113,11 @@ Print Assumptions C17_api_covered.
 (* the instance: with the lock modes of today's table, for ANY semantics of the Enforcer methods that respects
    the hand classification, every execution of callable wrappers is linearizable *)
 Theorem C17_synced_linearizable :
-  forall (state local ret : Type) (start : string -> local) (mstep : string -> local -> state -> local * state)
-         (len : string -> nat) (result : string -> local -> ret),
+  forall (state local ret : Type) (start : text -> local) (mstep : text -> local -> state -> local * state)
+         (len : text -> nat) (result : text -> local -> ret),
     respects_classes state local mstep ->
-    forall (s0 : state) (progs : list (list string)),
-      (forall m, In m (List.concat progs) -> callable synced_table m = true) ->
+    forall (s0 : state) (progs : list (list text)),
+      (forall m, In m (concat progs) -> callable synced_table m = true) ->
       forall tr C, exec (table_mode synced_table) start mstep len result (init s0 progs) tr = Some C ->
         exists ord, linearization (table_mode synced_table) start mstep len result s0 progs tr C ord.
 Proof. exact synced_linearizable. Qed.
@@ -154,7 +154,7 @@ Proof. vm_compute. reflexivity. Qed.
    lock, enforce one under the read lock *)
 Example C17_example_table :
   map (fun m => option_map (fun w => (w_target w, w_mode w, w_returns w)) (find_wrapper synced_table m))
-      ["add_policy"%string; "enforce"%string]
-  = [Some (Some "add_policy"%string, LW, true); Some (Some "enforce"%string, LR, true)]
+      ["add_policy"%text; "enforce"%text]
+  = [Some (Some "add_policy"%text, LW, true); Some (Some "enforce"%text, LR, true)]
   /\ 100 <= N.of_nat (List.length synced_table) /\ callable synced_table "add_policy" = true.
 Proof. vm_compute. repeat split; intro; discriminate. Qed.
